@@ -103,6 +103,11 @@ def gate_case(chk, case, store):
     cb = try_call(chk, "MProcess.convert_to_comp_basis:" + sk, tag, mp.convert_to_comp_basis)
     if cb is not None:
         cmp(chk, "MProcess.convert_to_comp_basis:" + sk, tag, cb[1], 0.5 * hsrow)
+    for mode, want in (("row_major", hsrow), ("column_major", hscol)):
+        cb = try_call(chk, "MProcess.convert_to_comp_basis:%s:%s" % (mode, sk), tag, mp.convert_to_comp_basis, mode)
+        if cb is not None:
+            cmp(chk, "MProcess.convert_to_comp_basis:%s:%s" % (mode, sk), tag, cb[0], want)
+            cmp(chk, "MProcess.convert_to_comp_basis:%s:%s" % (mode, sk), tag, cb[1], 0.5 * want)
     store.setdefault(sk, []).append((hs, choi, hsrow, proc))
 
 
